@@ -232,7 +232,7 @@ fn evaluate(b: usize, g: &[u64], acc: &Acc, only: Option<&[usize]>) -> (Vec<Flag
 
 fn seeds_for(ctx: &Ctx, b: usize) -> usize {
     match (ctx.tier, ctx.is_dbg()) {
-        (Tier::Quick, false) => if b <= 8 { 10_000 } else if b <= 12 { 2000 } else if b <= 15 { 800 } else { 600 },
+        (Tier::Quick, false) => if b <= 8 { 10_000 } else if b <= 12 { 5000 } else if b <= 15 { 1500 } else { 600 },
         (Tier::Thorough, false) => if b <= 8 { 60_000 } else if b <= 12 { 20_000 } else if b <= 15 { 6000 } else { 2500 },
         (_, true) => 0,
     }
